@@ -15,6 +15,11 @@ func runC07(c *Ctx, tier string) {
 	c05Effects(c, r, cs, e)
 	freshInstances(c, r, cs)
 	c01Loops(c, r)
-	filterChecks(c, r, false)
+	filterChecks(c, r, true)
+	c08Empty(c, r) // when Filter may hand back the registry it was given instead of a copy
+	// options are stored per instance: every Configure() hands out memory inside the
+	// fresh instance (or set by its constructor to memory allocated for it), never a
+	// structure shared between instances, runs or registries (C11's rule)
+	c11Configurables(c, r, BuildCensus(c))
 	r.Finish()
 }
